@@ -103,10 +103,20 @@ def extract(config="default", repo=None, manifest=None, crates=CRATES, extra_key
     ).hexdigest()[:24]
     out = os.path.join(CACHE, "facts", key)
     marker = os.path.join(out, "DONE")
+
+    def _touch():
+        # least-recently-*used* pruning: a fact directory that is being read must not look old
+        try:
+            os.utime(out, None)
+        except OSError:
+            pass
+
     if os.path.exists(marker):
+        _touch()
         return out
     with Lock():
         if os.path.exists(marker):
+            _touch()
             return out
         if not os.path.exists(DRIVER) or os.path.getmtime(DRIVER) < os.path.getmtime(os.path.join(DRIVER_DIR, "src", "main.rs")):
             build_driver()
@@ -141,10 +151,12 @@ def extract(config="default", repo=None, manifest=None, crates=CRATES, extra_key
             raise SystemExit("fact extraction produced no fact file (wrapper skipped?)")
         with open(marker, "w") as fh:
             fh.write("%.1f\n" % (time.time() - t0))
-        # prune old fact dirs (keep 6 most recent)
+        # prune old fact dirs: keep the 12 most recently used, and never one used in the last 30 minutes
         allf = sorted(glob.glob(os.path.join(CACHE, "facts", "*")), key=os.path.getmtime)
-        for d in allf[:-6]:
-            shutil.rmtree(d, ignore_errors=True)
+        now = time.time()
+        for d in allf[:-12]:
+            if now - os.path.getmtime(d) > 1800:
+                shutil.rmtree(d, ignore_errors=True)
     return out
 
 
